@@ -252,7 +252,9 @@ pub fn piece(rng: &mut Rng) -> (&'static str, Vec<u8>) {
             (if clean { "sgr-clean" } else { "sgr-wild" }, s(format!("\x1b[{}m", sgr_params(rng, clean))))
         }
         16 => {
-            let hexn = |rng: &mut Rng| -> String { (0..(1 + rng.below(5))).map(|_| *rng.pick(b"0123456789abcdefABCDEF") as char).collect() };
+            let hexn = |rng: &mut Rng| -> String {
+                if rng.chance(1, 4) { text_field(rng, 5) } else { (0..(1 + rng.below(5))).map(|_| *rng.pick(b"0123456789abcdefABCDEF") as char).collect() }
+            };
             let color = match rng.below(5) {
                 0 => format!("rgb:{}/{}/{}", hexn(rng), hexn(rng), hexn(rng)),
                 1 => format!("#{:02x}{:02x}{:02x}", rng.below(256), rng.below(256), rng.below(256)),
@@ -283,8 +285,11 @@ pub fn piece(rng: &mut Rng) -> (&'static str, Vec<u8>) {
             if rng.chance(2, 3) {
                 let clean = rng.chance(1, 2);
                 x.extend(s(format!("{}m", sgr_params(rng, clean))));
-            } else {
+            } else if rng.chance(1, 2) {
                 x.extend(payload(rng, 12, &[0x1b]));
+            } else {
+                // SGR parameters with text where numbers are expected
+                x.extend(s(format!("38;2;{};{};{}m", text_field(rng, 4), text_field(rng, 4), text_field(rng, 4))));
             }
             x.extend(b"\x1b\\");
             ("report-setting", x)
@@ -330,10 +335,10 @@ pub fn piece(rng: &mut Rng) -> (&'static str, Vec<u8>) {
                 x.extend(s(format!("{key}={val}")));
             }
             x.push(b';');
-            if rng.chance(1, 2) {
-                x.extend(b"OK");
-            } else {
-                x.extend(payload(rng, 16, &[0x1b]));
+            match rng.below(3) {
+                0 => x.extend(b"OK"),
+                1 => x.extend(payload(rng, 16, &[0x1b])),
+                _ => x.extend(s(format!("E{}:{}", text_field(rng, 6), text_field(rng, 6)))),
             }
             x.extend(b"\x1b\\");
             ("kitty-image", x)
@@ -650,6 +655,74 @@ pub fn partitions(rng: &mut Rng, len: usize, extra: usize) -> Vec<Vec<usize>> {
         out.push(p);
     }
     out
+}
+
+
+const WIDE: [&str; 5] = ["\u{e9}", "\u{20ac}", "\u{1f431}", "\u{7ff}", "\u{10ffff}"];
+
+/// a short text field that is valid UTF-8 but not what a numeric / hex field should be: hex digits with
+/// multi-byte characters, signs, spaces and non-hex letters at random positions
+pub fn text_field(rng: &mut Rng, max: u64) -> String {
+    let mut out = String::new();
+    for _ in 0..(1 + rng.below(max)) {
+        match rng.below(8) {
+            0 | 1 => out.push_str(*rng.pick(&WIDE[..])),
+            2 => out.push(*rng.pick(&['+', '-', ' ', 'g', 'x', 'G', '.', '#'])),
+            _ => out.push(*rng.pick(b"0123456789abcdefABCDEF") as char),
+        }
+    }
+    out
+}
+
+/// a field of about `len` bytes with the character `ch` starting at byte offset `at`, hex digits elsewhere
+fn field_with(len: usize, at: usize, ch: &str) -> String {
+    let mut out = String::new();
+    for i in 0..at {
+        out.push(b"f0a9"[i % 4] as char);
+    }
+    out.push_str(ch);
+    while out.len() < len {
+        out.push('1');
+    }
+    out
+}
+
+/// Systematic text corner cases: inside every string payload the decoders parse as text (OSC 4 / 10 / 11
+/// colour specifications, `#` colours, DECRPSS, kitty replies, XTGETTCAP hex) a multi-byte UTF-8 character or
+/// a non-digit is placed at every byte offset of every component / field of 1 to 5 bytes.
+pub fn text_corners() -> Vec<(Kind, &'static str, Vec<u8>)> {
+    let mut fields: Vec<String> = Vec::new();
+    for len in 1..=5usize {
+        for at in 0..len {
+            for ch in ["\u{e9}", "\u{20ac}", "\u{1f431}", "g", "+", " "] {
+                fields.push(field_with(len, at, ch));
+            }
+        }
+    }
+    fields.sort();
+    fields.dedup();
+    let mut v: Vec<(Kind, &'static str, Vec<u8>)> = Vec::new();
+    let mut push = |x: String| v.push((Kind::Event, "text-corner", x.into_bytes()));
+    for (k, f) in fields.iter().enumerate() {
+        // the odd field in the first, second, third component (components are evaluated left to right)
+        let head = ["10", "11", "4;7"][k % 3];
+        let end = ["\x07", "\x1b\\"][k % 2];
+        push(format!("\x1b]{head};rgb:{f}/00/00{end}"));
+        push(format!("\x1b]{head};rgb:12/{f}/00{end}"));
+        push(format!("\x1b]{head};rgb:12/3456/{f}{end}"));
+        if k % 4 == 0 {
+            push(format!("\x1b]{head};#{f}{f}{end}"));
+            push(format!("\x1b]4;{f};rgb:00/00/00{end}"));
+            push(format!("\x1bP1$r38;2;{f};0;0m\x1b\\"));
+            push(format!("\x1bP1$r{f}\x1b\\"));
+            push(format!("\x1b_Gi=1;{f}\x1b\\"));
+            push(format!("\x1b_Gi=1,p=2;E{f}:{f}\x1b\\"));
+            push(format!("\x1b[200~{f}\x1b[201~"));
+            push(format!("\x1bP1+r{f}=41\x1b\\"));
+            push(format!("\x1bP0+r41;{f}\x1b\\"));
+        }
+    }
+    v
 }
 
 /// white-box corner cases: the witnesses of the repaired defects and their neighbours
